@@ -19,6 +19,7 @@ def rule_md5_after_install(ctx):
     r = ctx.rule("md5-after-install", "every path to backup_create_md5_file(filename_in) in do_source_file passes the rename onto "
                  "filename_out or the no-change unlink; after an install with need_backup the md5 is always written")
     f = db.fn("do_source_file", file=UNC)
+    r.names(f, "pfout", "filename_in", "filename_out", "filename_tmp", "need_backup", "did_open")
     md5 = db.calls_in(f, "backup_create_md5_file")
     r.require(md5, "do_source_file does not call backup_create_md5_file")
     installs = [n for n in f.all_nodes() if n["k"] == "call" and n.get("c") in ("rename", "MoveFileEx", "MoveFileExA", "unlink")]
